@@ -20,6 +20,7 @@ import (
 
 func init() {
 	opExec["leaf"] = execLeaf
+	opExec["myers"] = execMyers
 	generators["C11"] = genC11
 }
 
@@ -68,6 +69,18 @@ func scriptStr(ops []patch.Op) string {
 		}
 	}
 	return strings.Join(p, ",")
+}
+
+// op `myers <xs> <ys>`: the edit script of the real MyersDiff (the Lean side runs its own model of the algorithm)
+func execMyers(a []string) string {
+	if len(a) != 2 {
+		return "bad-op"
+	}
+	script, pan := safeMyers(parseIntList(a[0]), parseIntList(a[1]))
+	if pan != "" {
+		return "PANIC"
+	}
+	return scriptStr(script)
 }
 
 var selIdxRe = regexp.MustCompile(`/S\[(\d+)\]$`)
@@ -377,8 +390,63 @@ func genC11(c *Ctx) {
 			c.Count("myers-script-not-valid")
 		}
 	}
+	c11Myers(c)
 	c11Trees(c)
 	c11Flow(c)
+}
+
+// c11Myers: the model of the Myers search itself against the real one, on lists that exercise what the timeline
+// evolutions do not: long common prefixes / suffixes, one list much shorter than the other (diagonals below -Z), few
+// distinct values (many equally short scripts), single insertions / deletions at every position (the D <= 1 branches).
+func c11Myers(c *Ctx) {
+	r := c.Rng
+	emit := func(xs, ys []int) {
+		c.Emit(fmt.Sprintf("myers %s %s", intsStr(xs), intsStr(ys)), len(xs)+len(ys) > 0)
+	}
+	// systematic: every single insertion / deletion / replacement on short lists
+	for n := 0; n <= 5; n++ {
+		base := make([]int, n)
+		for k := range base {
+			base[k] = 10 + k%2
+		}
+		emit(base, base)
+		for pos := 0; pos <= n; pos++ {
+			for _, v := range []int{10, 11, 12} {
+				ys := append(append(append([]int(nil), base[:pos]...), v), base[pos:]...)
+				emit(base, ys)
+				emit(ys, base)
+			}
+		}
+	}
+	for i := 0; i < c.N(600, 20000); i++ {
+		alpha := r.Range(1, 4)
+		n, m := r.Range(0, 12), r.Range(0, 12)
+		if r.Intn(5) == 0 {
+			n, m = r.Range(0, 2), r.Range(6, 30)
+		}
+		if r.Intn(2) == 0 {
+			n, m = m, n
+		}
+		xs, ys := make([]int, n), make([]int, m)
+		for k := range xs {
+			xs[k] = 10 + r.Intn(alpha)
+		}
+		for k := range ys {
+			ys[k] = 10 + r.Intn(alpha)
+		}
+		if r.Intn(3) == 0 { // common prefix / suffix
+			pre := make([]int, r.Range(0, 6))
+			for k := range pre {
+				pre[k] = 10 + r.Intn(alpha)
+			}
+			if r.Intn(2) == 0 {
+				xs, ys = append(append([]int(nil), pre...), xs...), append(append([]int(nil), pre...), ys...)
+			} else {
+				xs, ys = append(xs, pre...), append(ys, pre...)
+			}
+		}
+		emit(xs, ys)
+	}
 }
 
 func safeMyers(xs, ys []int) (script []patch.Op, pan string) {
